@@ -15,7 +15,7 @@ DEPENDS = ['TidalPy/RadialSolver', 'TidalPy/utilities/dimensions', 'TidalPy/util
 MIN_DECISIVE = {'quick': 120, 'thorough': 900}
 MIN_COUNTERS = {'quick': {'surface_conditions_checked': 300, 'interfaces_checked': 150}, 'thorough': {'surface_conditions_checked': 4000, 'interfaces_checked': 3000}}
 CASE_TIMEOUT = 400
-RULE = ('each case = (layer stack, material profile kind, degree l, frequency, ordered solve_for tuple incl. duplicates): quick = every stack of 1-2 layers '
+RULE = ('each case = (layer stack, material profile kind, degree l, frequency, ordered solve_for tuple incl. duplicates, or the default request solve_for=None): quick = every stack of 1-2 layers '
         'over {solid,liquid}x{static,dynamic}x{compressible,incompressible} without a dynamic-liquid top plus 380 sampled 3-5 layer stacks; thorough = every 1-3 '
         'layer stack x 2 profiles plus 1200 sampled 4-5 layer stacks; non-trivial = the solver reported success (NotImplementedError for unsupported '
         'combinations and integration failures are not decisive); distinct by full case hash')
@@ -56,7 +56,7 @@ def gen_cases(tier, seed):
     for k, (st, prof) in enumerate(stacks):
         dyn_liq = any(x[0] == 'liquid' and not x[1] for x in st)
         cases.append({'stack': [list(x) for x in st], 'profile': prof, 'l': int(rng.choice([2, 2, 3, 4])),
-                      'freq': float(10 ** (rng.uniform(-4, -3) if dyn_liq else rng.uniform(-6, -3))), 'solve_for': list(SOLVE_SETS[k % len(SOLVE_SETS)]),
+                      'freq': float(10 ** (rng.uniform(-4, -3) if dyn_liq else rng.uniform(-6, -3))), 'solve_for': list(SOLVE_SETS[k % len(SOLVE_SETS)]), 'default_request': bool(k % len(SOLVE_SETS) == 0 and (k // len(SOLVE_SETS)) % 2 == 0),
                       'R': float(10 ** rng.uniform(6, 7)), 'nper': int(rng.choice([12, 25, 40])), 'nd': bool(k % 2), 'sub': k, 'seed': seed})
     return cases
 
@@ -88,11 +88,12 @@ def eval_case(c):
     body = make_body(c)
     l = c['l']
     sf = tuple(c['solve_for'])
+    sf_call = None if (c.get('default_request') and sf == ('tidal',)) else sf       # None: the solver's default request (tidal)
     any_incomp = any(x[2] for x in c['stack'])
     kam = True if any_incomp else bool(c['sub'] % 3)
     cnt = {'solves': 0, 'surface_conditions_checked': 0, 'interfaces_checked': 0, 'interface_quantities_checked': 0}
     cnt['solves'] += 1
-    s = solve(body, c['freq'], l=l, solve_for=sf, kamata=kam, rtol=1e-9, nondim=c['nd'], max_steps=300000, keep_result=True)
+    s = solve(body, c['freq'], l=l, solve_for=sf_call, kamata=kam, rtol=1e-9, nondim=c['nd'], max_steps=300000, keep_result=True)
     desc = '/'.join(('S' if t == 'solid' else 'L') + ('s' if st else 'd') + ('i' if inc else 'c') for t, st, inc in c['stack'])
     if not s['success']:
         return {'status': 'inconclusive', 'nontrivial': False, 'violations': [], 'obs': {'note': ('exception ' + s['exc'] if s['exc'] else 'solver failure: ' + s['message'][:50]), 'stack': desc}, 'counters': cnt}
@@ -100,7 +101,7 @@ def eval_case(c):
     # decisiveness: the property is about solutions, not about ill-conditioned runs (dynamic liquid layers make the three
     # independent solutions nearly parallel): require the Love numbers to be stable under a 100x tighter tolerance
     cnt['solves'] += 1
-    s2 = solve(body, c['freq'], l=l, solve_for=sf, kamata=kam, rtol=1e-11, nondim=c['nd'], max_steps=300000)
+    s2 = solve(body, c['freq'], l=l, solve_for=sf_call, kamata=kam, rtol=1e-11, nondim=c['nd'], max_steps=300000)
     if not s2['success']:
         return {'status': 'inconclusive', 'nontrivial': False, 'violations': [], 'obs': {'note': 'convergence probe failed: ' + s2['message'][:50], 'stack': desc}, 'counters': cnt}
     dconv = float(np.max(np.abs(s2['love'] - s['love']) / np.maximum(np.abs(s2['love']), 1e-3)))
@@ -113,7 +114,7 @@ def eval_case(c):
 
     def V(key, d, **data):
         if sum(1 for v in viol if v['key'] == key) < 2:
-            viol.append({'key': key, 'desc': f'[{desc} l={l} solve_for={sf} kamata={kam} nd={c["nd"]}] ' + d, 'data': data})
+            viol.append({'key': key, 'desc': f'[{desc} l={l} solve_for={sf_call} kamata={kam} nd={c["nd"]}] ' + d, 'data': data})
 
     if res.shape != (6 * len(sf), N):
         V('result-shape', f'result shape {res.shape} != ({6 * len(sf)}, {N})')
